@@ -37,6 +37,7 @@ def gen_case(rnd, tier: str, i: Any) -> Dict[str, Any]:
     c["params"] = prm()
     # further requests on the same TraceAnalysis object (other parameter values); each is judged on its own
     c["more_params"] = [prm() for _ in range(rnd.choice([0, 0, 1, 2]))]
+    c["pre_calls"] = rnd.sample(c04.PRE_CALLS, rnd.choice([0, 0, 1, 2]))
     return c
 
 
@@ -117,6 +118,10 @@ def run_case(case: Dict[str, Any], ctx: Any) -> core.CaseResult:
         ok, ta = drv.guard(res, "TraceAnalysis(load)", drv.new_analysis, d)
         if not ok:
             return res
+        for nm in case.get("pre_calls", []):
+            c04.pre_call(ta, nm, sorted(per_rank))
+        if case.get("pre_calls"):
+            res.counters["requests_after_other_analyses"] += 1
         seq = [case["params"]] + list(case.get("more_params", []))
         for k, prm in enumerate(seq):
             if k >= 1:
